@@ -32,7 +32,11 @@ def attribute(h, fc):
     """Properties a failed check counts against."""
     t = tags_of(fc["desc"])
     if t is not None:
-        return t
+        # the tag names the properties the assertion states; the properties the harness is primarily about are
+        # affected as well (a keyword looked up with the wrong text is C16's statement and C11's classification);
+        # a property is reported only if the native replay shows a violation of that very property
+        extra = [p for cfg in h["cfgs"] for p in registry.primary_props(h, cfg) if p not in t]
+        return t + sorted(set(extra))
     if fc["desc"].startswith("TWIN:"):
         return []
     if kani.is_unwind_failure(fc):
